@@ -3,6 +3,7 @@ package checks
 import (
 	"bytes"
 	"fmt"
+	"strings"
 
 	"verif/mc/drive"
 	"verif/mc/engine"
@@ -29,10 +30,12 @@ type c16Case struct {
 	PA int `json:"pa,omitempty"`
 	PP int `json:"pp,omitempty"`
 	// pair: a second variant unit (index into c16Variants) at (QA, QP); full: every unit populated
-	V1 int `json:"v1,omitempty"`
-	V2 int `json:"v2,omitempty"`
-	QA int `json:"qa,omitempty"`
-	QP int `json:"qp,omitempty"`
+	Member string `json:"member,omitempty"` // long: which string-valued member gets a value of Len bytes
+	Len    int    `json:"len,omitempty"`
+	V1     int    `json:"v1,omitempty"`
+	V2     int    `json:"v2,omitempty"`
+	QA     int    `json:"qa,omitempty"`
+	QP     int    `json:"qp,omitempty"`
 }
 
 func c16GN(kind int, where string) *refcfg.GeneralName {
@@ -125,7 +128,15 @@ var c16Variants = []c16Case{
 	{TopAuth: 2, AdmAuth: 3, AdmNA: 7, ProfNA: 7, Oids: 2, Reg: 1, Add: 1, Items: 2},
 }
 
+var c16LongMembers = []string{"top-dns", "top-mail", "top-url", "adm-dns", "adm-mail", "adm-url", "admna-url", "admna-text", "admna-oid", "profna-url", "profna-text", "item", "reg", "add", "profoid", "many-items", "many-oids"}
+
 func c16Enumerate(tier string, yield func(any)) {
+	// DER length-form boundaries of every string-valued member (and of the wrappers around it)
+	for _, m := range c16LongMembers {
+		for _, l := range []int{100, 118, 119, 120, 121, 122, 123, 124, 125, 126, 127, 128, 129, 130, 200, 250, 251, 252, 253, 254, 255, 256, 257, 300, 1000} {
+			yield(&c16Case{Kind: "long", Member: m, Len: l})
+		}
+	}
 	c16EnumerateMore(tier, yield)
 	naMasks := []int{0, 1, 2, 3, 4, 5, 6, 7}
 	for top := 0; top < 5; top++ {
@@ -195,6 +206,60 @@ func c16Exec(x *engine.Ctx, cc any) {
 	adm := &refcfg.Admission{AdmissionAuthority: c16GN(c.TopAuth, "top")}
 	if c.Kind == "unit" {
 		ad, pi := c16Unit(c)
+		ad.ProfessionInfos = []refcfg.ProfessionInfo{pi}
+		adm.Admissions = []refcfg.Admissions{ad}
+	} else if c.Kind == "long" {
+		str := func(prefix string) string {
+			if c.Len <= len(prefix) {
+				return prefix[:c.Len]
+			}
+			return prefix + strings.Repeat("x", c.Len-len(prefix))
+		}
+		pi := refcfg.ProfessionInfo{ProfessionItems: []string{"Item"}}
+		ad := refcfg.Admissions{}
+		switch c.Member {
+		case "top-dns":
+			adm.AdmissionAuthority = &refcfg.GeneralName{Type: "dns", Name: str("top.")}
+		case "top-mail":
+			adm.AdmissionAuthority = &refcfg.GeneralName{Type: "mail", Name: str("a@")}
+		case "top-url":
+			adm.AdmissionAuthority = &refcfg.GeneralName{Type: "url", Name: str("http://")}
+		case "adm-dns":
+			ad.AdmissionAuthority = &refcfg.GeneralName{Type: "dns", Name: str("adm.")}
+		case "adm-mail":
+			ad.AdmissionAuthority = &refcfg.GeneralName{Type: "mail", Name: str("a@")}
+		case "adm-url":
+			ad.AdmissionAuthority = &refcfg.GeneralName{Type: "url", Name: str("http://")}
+		case "admna-url":
+			ad.NamingAuthority = &refcfg.NamingAuthority{Url: refcfg.S(str("http://"))}
+		case "admna-text":
+			ad.NamingAuthority = &refcfg.NamingAuthority{Text: refcfg.S(str("Text "))}
+		case "admna-oid":
+			ad.NamingAuthority = &refcfg.NamingAuthority{Oid: refcfg.S("1.2" + strings.Repeat(".4294967295", c.Len/20+1))}
+		case "profna-url":
+			pi.NamingAuthority = &refcfg.NamingAuthority{Url: refcfg.S(str("http://"))}
+		case "profna-text":
+			pi.NamingAuthority = &refcfg.NamingAuthority{Text: refcfg.S(str("Text "))}
+		case "item":
+			pi.ProfessionItems = []string{str("Item ")}
+		case "reg":
+			pi.RegistrationNumber = refcfg.S(str("1-"))
+		case "add":
+			pi.AddProfessionInfo = refcfg.Bin(bytes.Repeat([]byte{0x5c}, c.Len))
+		case "profoid":
+			pi.ProfessionOids = refcfg.Strs("1.2" + strings.Repeat(".4294967295", c.Len/20+1))
+		case "many-items":
+			pi.ProfessionItems = nil
+			for k := 0; k < c.Len/10+1; k++ {
+				pi.ProfessionItems = append(pi.ProfessionItems, fmt.Sprintf("Item-%04d", k))
+			}
+		case "many-oids":
+			var o []string
+			for k := 0; k < c.Len/10+1; k++ {
+				o = append(o, fmt.Sprintf("1.2.276.0.76.4.%d", 1000+k))
+			}
+			pi.ProfessionOids = &o
+		}
 		ad.ProfessionInfos = []refcfg.ProfessionInfo{pi}
 		adm.Admissions = []refcfg.Admissions{ad}
 	} else if c.Kind == "pair" || c.Kind == "full" {
@@ -279,7 +344,7 @@ func init() {
 	register(&engine.Check{
 		ID:          "C16",
 		Level:       "exploration",
-		Rule:        "one admission x one profession info over the full product: top-level authority {none,ip,dns,mail,url} x admission authority (5) x admission naming authority subsets of {oid,url,text} (all 8) x profession naming authority (same) x professionOids {none,1,2} x registrationNumber {none,set} x addProfessionInfo {none,!binary,!null,!empty,1000-byte !binary}, item sets incl. non-ASCII; plus 1..3 admissions x 1..3 profession infos with each of 22 single-member variants placed at every position against default neighbours, with two variants (8 x 8, a third of them in quick) at every ordered pair of positions using position-dependent values, and 22 fully populated trees per shape. Each through a whole run; the value must equal the reference DER encoding of CommonPKI AdmissionSyntax (explicit [0]/[1] wrappers, IA5String url, UTF8String text/items, PrintableString registration number, OCTET STRING info, GeneralName tags [1]/[2]/[6]/[7]). non-trivial = distinct case",
+		Rule:        "one admission x one profession info over the full product: top-level authority {none,ip,dns,mail,url} x admission authority (5) x admission naming authority subsets of {oid,url,text} (all 8) x profession naming authority (same) x professionOids {none,1,2} x registrationNumber {none,set} x addProfessionInfo {none,!binary,!null,!empty,1000-byte !binary}, item sets incl. non-ASCII; plus 1..3 admissions x 1..3 profession infos with each of 22 single-member variants placed at every position against default neighbours, with two variants (8 x 8, a third of them in quick) at every ordered pair of positions using position-dependent values, 22 fully populated trees per shape, and every string-, OID- and list-valued member at 25 lengths around the 127/128 and 255/256 DER length-form boundaries. Each through a whole run; the value must equal the reference DER encoding of CommonPKI AdmissionSyntax (explicit [0]/[1] wrappers, IA5String url, UTF8String text/items, PrintableString registration number, OCTET STRING info, GeneralName tags [1]/[2]/[6]/[7]). non-trivial = distinct case",
 		Bound:       map[string]string{"admissions": "<=3", "profession infos": "<=3"},
 		Assumptions: []string{"an empty naming authority, an empty professionItems list and an empty professionOids list have no agreed encoding and are not in the alphabet"},
 		Budget:      budgets(quickBudget, thoroughBudget),
